@@ -49,7 +49,7 @@ def gen(r, tier, i):
             'ops': ops, 'init_n': r.randint(0, 9), 'host': r.choice(['empty', 'generated']),
             'override': {'target': r.choice(['p0', 's', 'sub.q', 'sub2.u', 'sub.h']), 'via': r.choice(['composer', 'process', 'merge', 'merge']),
                          'late': r.random() < 0.5},
-            'tags': r.random() < 0.5, 'meta_overlap': r.random() < 0.5, 'shared_schema': r.random() < 0.4, 'own_init': r.random() < 0.25}
+            'tags': r.random() < 0.5, 'flowtags': r.random() < 0.5, 'meta_overlap': r.random() < 0.5, 'shared_schema': r.random() < 0.4, 'own_init': r.random() < 0.25}
 
 
 def classes():
@@ -92,7 +92,7 @@ def classes():
 
     class C(Composer):
         defaults = {'k': 2, 'nest': True, 'deriver': False, 'tag': '', 'shared': False, 'own_init': False, 'mixed': False,
-                    'tags': False}
+                    'tags': False, 'flowtags': False}
 
         def generate_processes(self, config):
             d = {'p%d' % i: P({'inc': i + 1, 'ts': 0.5 * (i + 1), 'shared': config['shared']}) for i in range(config['k'])}
@@ -100,6 +100,10 @@ def classes():
                 d['sub'] = {'q': P({'inc': 7, 'shared': config['shared'], 'own_init': config.get('own_init')})}
             if config['deriver']:
                 d['drv'] = St()
+            if config.get('tags') and config.get('flowtags'):
+                # flow steps listed among the processes (the dependent one first): their flow entries count
+                d['f2tag'] = Tag({'tag': 'f2'})
+                d['f1tag'] = Tag({'tag': 'f1'})
             return d
 
         def generate_steps(self, config):
@@ -116,6 +120,8 @@ def classes():
 
         def generate_flow(self, config):
             d = {'s': [], 't': [('s',)]}
+            if config.get('tags') and config.get('flowtags'):
+                d.update({'f2tag': [('f1tag',)], 'f1tag': []})
             if config['nest']:
                 d['sub2'] = {'u': []}
                 if config.get('mixed'):
@@ -127,6 +133,8 @@ def classes():
             d.update({'s': {'S': ('st',)}, 't': {'S': ('st2',)}})
             if config.get('tags'):
                 d.update({'atag': {'T': ('tg',)}, 'ztag': {'T': ('tg',)}, 'sub': {'ntag': {'T': ('..', 'tg')}}})
+                if config.get('flowtags'):
+                    d.update({'f2tag': {'T': ('tg',)}, 'f1tag': {'T': ('tg',)}})
             if config['nest']:
                 d['sub'] = dict(d.get('sub', {}), q={'S': ('..', 'st2')})
                 d['sub2'] = {'u': {'S': ('..', 'st')}}
@@ -189,7 +197,7 @@ def run(spec):
     V = Viol()
     P, St, C = classes()
     cfg = {'k': spec['k'], 'nest': spec['nest'], 'deriver': spec['deriver'], 'shared': bool(spec.get('shared_schema')),
-           'own_init': bool(spec.get('own_init')), 'tags': bool(spec.get('tags'))}
+           'own_init': bool(spec.get('own_init')), 'tags': bool(spec.get('tags')), 'flowtags': bool(spec.get('flowtags'))}
     path = tuple(spec['path'])
     stats = {}
     try:
